@@ -25,6 +25,19 @@ interface IRare {
     function ping(uint256 a, uint256 b) external payable returns (bool ok, bytes memory data);
 }
 
+contract WithFallback {
+    uint256 hits;
+    fallback(bytes calldata input) external payable returns (bytes memory output) {
+        hits = hits + 1;
+        output = input;
+    }
+}
+
+library WithInnerType {
+    type Slot is bytes32;
+    struct Packed { uint128 lo; Slot s; uint128 hi; }
+}
+
 contract Child {
     uint256 public seed;
     constructor(uint256 s) payable {
@@ -203,6 +216,28 @@ contract RareForms is RareBase {
         }
         bytes(label).length;
         return data;
+    }
+
+    type Inner is uint64;
+
+    function slices(bytes calldata data, uint256 x) external pure returns (bytes memory) {
+        bytes calldata head = data[:x / 16];
+        bytes calldata tail = data[x * 4:];
+        bytes calldata mid = data[x++:x * 2];
+        head;
+        tail;
+        return data[:uint256(keccak256(abi.encodePacked(mid))) % 32];
+    }
+
+    function catches(uint256 a) external returns (uint256 r) {
+        try target.ping(a, a * 2) {
+            r = a / 4;
+        } catch Error(string memory reason) {
+            r = bytes(reason).length * 8;
+        } catch (bytes memory lowLevel) {
+            r = lowLevel.length;
+            total = total + 1;
+        }
     }
 
     function inlineAsm(uint256 x) public pure returns (uint256 r) {
